@@ -60,14 +60,22 @@ class C16(Prop):
         for k in range(n):
             cls = "ord" if k % 2 == 0 else "cat"
             m = rng.randint(1, 5)
+            scale = rng.random() < 0.04
+            if scale:
+                # scale: dozens / more than a hundred names colliding on one base name, two-digit category counts,
+                # multiplicities beyond 2**53
+                m = rng.choice([12, 25, 101, 130])
             alts = gen.alt_ids(rng, m, "1m")
             clean = rng.random() < 0.25
             if clean:
                 names = [[a, "n" + str(a)] for a in alts]
+            elif scale:
+                base = rng.choice(["A", "cand", "X__1"])
+                names = [[a, base if rng.random() < 0.9 else rng.choice(NAME_POOL)] for a in alts]
             else:
                 names = [[a, rng.choice(NAME_POOL)] for a in alts]
             lines, pool = [], []
-            ncat = rng.randint(1, 3)
+            ncat = rng.randint(1, 3) if not scale else rng.choice([3, 12, 15])
             for _ in range(rng.randint(1, 6)):
                 if pool and not clean and rng.random() < 0.5:
                     b = rng.choice(pool)
@@ -81,12 +89,17 @@ class C16(Prop):
                     if clean and b in pool:
                         continue
                     pool.append(b)
-                lines.append([rng.randint(1, 9) if rng.random() < 0.9 or clean else 0, b])
+                mlt = rng.randint(1, 9) if rng.random() < 0.9 or clean else 0
+                if scale and rng.random() < 0.5:
+                    mlt = rng.choice([1000, 2 ** 53 + 1, 10 ** 18 + 3])
+                lines.append([mlt, b])
             true_counts = [m, sum(x for x, _ in lines), len(lines), ncat]
             counts = true_counts if clean else [rng.randint(0, 9) for _ in range(4)]
             cat_names = []
             if cls == "cat":
-                cat_names = [[i + 1, ("c" + str(i)) if clean else rng.choice(NAME_POOL)] for i in range(ncat)]
+                cat_names = [[i + 1, ("c" + str(i)) if clean else
+                              (("Level" if rng.random() < 0.9 else rng.choice(NAME_POOL)) if scale else rng.choice(NAME_POOL))]
+                             for i in range(ncat)]
             ext = "cat" if cls == "cat" else gen.infer_type([tuple(map(tuple, b)) for _, b in lines], m)
             yield {"kind": "clean" if clean else "dirty", "cls": cls, "ext": ext, "names": names,
                    "cat_names": cat_names, "counts": counts, "lines": lines,
